@@ -211,7 +211,7 @@ def canonicalise(dotted: str, tree: ast.Module, reference: Optional[dict] = None
     pp_ = getattr(tree, "_verif_params", {})
     if ni_ or mc_ or pp_:
         applied["<module>"] = {f"{ni_} import spellings, constants {mc_}, private params {pp_}": ""}
-    inl = inline_new_helpers(tree, {k for k in refmod if not k.startswith('<')})
+    inl = inline_new_helpers(tree, {k for k in refmod if not k.startswith('<')}, refmod.get('<calls>'))
     if inl:
         applied["<inlined helpers>"] = {x: "" for x in inl}
     keep_ifexp = refmod.get("<ifexp>", {})
@@ -579,10 +579,18 @@ def beta_reduce(root: ast.AST) -> int:
     return n
 
 
-def inline_new_helpers(tree: ast.Module, ref_funcs: Set[str]) -> List[str]:
-    """Calls from reference functions to functions the reference tree does not have are replaced by the helper's body."""
+def inline_new_helpers(tree: ast.Module, ref_funcs: Set[str], ref_calls: Optional[Dict[str, List[str]]] = None) -> List[str]:
+    """Calls from reference functions to functions the reference tree does not have are replaced by the helper's body. So is a *new call edge*
+    to a module-level function the reference does have (a body de-duplicated onto its existing sibling helper): the callee stays a function of
+    its own and is judged on its own as before; the caller is judged with the callee's body in place of the call."""
     import copy
     helpers: Dict[str, Tuple[ast.FunctionDef, int]] = {}   # call name -> (def, number of leading params to skip: self/cls)
+    old_helpers: Dict[str, Tuple[ast.FunctionDef, int]] = {}
+    if ref_calls is not None:
+        for n in tree.body:
+            if isinstance(n, ast.FunctionDef) and n.name in ref_funcs:
+                old_helpers[n.name] = (n, 0)
+    new_only = helpers
     for n in tree.body:
         if isinstance(n, ast.FunctionDef) and n.name not in ref_funcs:
             helpers[n.name] = (n, 0)
@@ -593,11 +601,18 @@ def inline_new_helpers(tree: ast.Module, ref_funcs: Set[str]) -> List[str]:
                     helpers[f"self.{m.name}"] = (m, 0 if static else 1)
                     helpers[f"{n.name}.{m.name}"] = (m, 0 if static else 1)
                     helpers[f"cls.{m.name}"] = (m, 0 if static else 1)
-    if not helpers:
+    if not helpers and not old_helpers:
         return []
     done: List[str] = []
     for q, fn in _function_nodes(tree):
         if q not in ref_funcs:
+            continue
+        helpers = dict(new_only)
+        if ref_calls is not None and q in ref_calls:
+            for nm_, rec_ in old_helpers.items():
+                if nm_ != q and nm_ not in ref_calls[q] and nm_ not in helpers:
+                    helpers[nm_] = rec_
+        if not helpers:
             continue
         for _round in range(6):
             hit = False
@@ -837,7 +852,7 @@ def inline_new_helpers(tree: ast.Module, ref_funcs: Set[str]) -> List[str]:
     for nm in inlined:
         still = [c for c in ast.walk(tree) if isinstance(c, ast.Call) and ast.unparse(c.func).split(".")[-1] == nm]
         if not still:
-            for key, (h, _) in helpers.items():
+            for key, (h, _) in new_only.items():
                 if h.name == nm:
                     h._verif_inlined = True
     return done
@@ -1825,6 +1840,9 @@ def snapshot(tree: ast.Module, dotted: str = "", is_pkg: bool = False) -> Dict[s
     out["<lambdas>"] = {q: v for q, v in out["<lambdas>"].items() if v}
     out["<nested>"] = {q: sorted({n.name for n in ast.walk(fn) if isinstance(n, ast.FunctionDef) and n is not fn}) for q, fn in _function_nodes(tree)}
     out["<nested>"] = {q: v for q, v in out["<nested>"].items() if v}
+    modfuncs = {n.name for n in tree.body if isinstance(n, ast.FunctionDef)}
+    out["<calls>"] = {q: sorted({c.func.id for c in ast.walk(fn) if isinstance(c, ast.Call) and isinstance(c.func, ast.Name) and c.func.id in modfuncs})
+                      for q, fn in _function_nodes(tree)}
     out["<globals>"] = sorted({t.id for st in tree.body if isinstance(st, ast.Assign) for t in st.targets if isinstance(t, ast.Name)}
                               | {st.target.id for st in tree.body if isinstance(st, ast.AnnAssign) and isinstance(st.target, ast.Name)})
     return out
